@@ -55,7 +55,7 @@ theorem gr28 (text : List Nat) : (envOf text).g[28]? =
       (.seq (.seq (.str [116, 111, 112, 105, 99, 40, 34]) (.ref 29)) (.str [34, 41]))⟩ := rfl
 theorem gr31 (text : List Nat) : (envOf text).g[31]? =
     some ⟨31, [102, 117, 110, 99, 116, 105, 111, 110, 95, 105, 110, 118, 111, 99, 97, 116, 105, 111, 110], .silent,
-      (.seq (.seq (.seq (.seq (.ref 32) (.str [40])) (.star (.ref 41))) (.star (.seq (.str [44]) (.ref 41)))) (.str [41]))⟩ := rfl
+      (.seq (.seq (.seq (.ref 32) (.str [40])) (.opt (.seq (.ref 41) (.star (.seq (.str [44]) (.ref 41)))))) (.str [41]))⟩ := rfl
 theorem gr32 (text : List Nat) : (envOf text).g[32]? =
     some ⟨32, [102, 117, 110, 99, 116, 105, 111, 110, 95, 110, 97, 109, 101], .atomic,
       (.seq (.alt (.ref 1008) (.str [95])) (.star (.alt (.ref 1009) (.str [95]))))⟩ := rfl
@@ -520,8 +520,8 @@ theorem ev26_fail {c : Nat} {run G rest : List Nat} (hs : Suf text p (c :: (run 
         simp [List.isPrefixOf, this])
   have h1 := Ev.seq_fail2 h32 hsk hstr (d := run.length + G.length + 100)
   have h31 := evr (gr31 text) (by omega)
-    (Ev.seq_fail1 (Ev.seq_fail1 (Ev.seq_fail1 h1 (d := run.length + G.length + 101)
-      (b := .star (.ref 41))) (d := run.length + G.length + 102) (b := .star (.seq (.str [44]) (.ref 41))))
+    (Ev.seq_fail1 (Ev.seq_fail1 h1 (d := run.length + G.length + 101)
+      (b := .opt (.seq (.ref 41) (.star (.seq (.str [44]) (.ref 41))))))
       (d := run.length + G.length + 103) (b := .str [41])) (d := run.length + G.length + 104) (at_ := .nonAtomic)
   exact (evr (gr26 text) (by omega) h31 (d := run.length + G.length + 106)).mono (by omega)
 
